@@ -53,6 +53,10 @@ ENOENT_KINDS = ("open", "makedirs", "mkdir", "rename", "replace", "unlink",
 def errs_for(ckind):
     if ckind.split(":")[0] in ENOENT_KINDS:
         return ERRS + [("ENOENT", errno.ENOENT)]
+    if ckind == "write":
+        # a full device: half of the data is stored, then ENOSPC (or, for an
+        # unbuffered file, a short count and no error)
+        return ERRS + [("partial write", "SHORT")]
     return ERRS
 
 
